@@ -38,6 +38,7 @@ type Config struct {
 	Seed        int
 	genDir      string
 	generated   []c17Handler
+	scenarios   []metaScenario
 }
 
 func defaultConfig() *Config {
@@ -95,6 +96,21 @@ func (c *Config) overlayFiles() (map[string]string, error) {
 			}
 		}
 	}
+	if c.Prop == "C15" || c.Prop == "C19" {
+		if c.genDir == "" {
+			d, err := os.MkdirTemp("", "gosymx-gen-")
+			if err != nil {
+				return nil, err
+			}
+			c.genDir = d
+			scs, err := generateMeta(c.Prop, c.Verif, filepath.Join(d, "zz_gen.go"))
+			if err != nil {
+				return nil, err
+			}
+			c.scenarios = scs
+		}
+		ov[filepath.Join(c.Repo, "zzvrf", "h_"+strings.ToLower(c.Prop), "zz_gen.go")] = filepath.Join(c.genDir, "zz_gen.go")
+	}
 	if c.Prop == "C17" {
 		// governance-gated handlers are enumerated from /repo's current source and their harnesses generated
 		if c.genDir == "" {
@@ -129,6 +145,7 @@ type harnessDecl struct {
 	MaxSteps   int64
 	MaxPaths   int
 	Witnesses  int
+	witnessesSet bool
 	Product    bool
 	Doc        string
 	Bounds     []string
@@ -183,6 +200,7 @@ func parseDirectives(fd *ast.FuncDecl) *harnessDecl {
 			h.MaxPaths = atoi()
 		case "witnesses":
 			h.Witnesses = atoi()
+			h.witnessesSet = true
 		case "product":
 			h.Product = true
 		case "bound":
@@ -299,6 +317,13 @@ func (c *Config) makeSpecs(l *loaded, findings map[string]bool) ([]*symx.Harness
 		if d.FullFeasMs != 0 {
 			s.FullFeasMs = d.FullFeasMs
 		}
+		if c.Prop == "C15" || c.Prop == "C19" {
+			s.AssertPrefix = c.Prop
+		}
+		if c.Prop == "C19" {
+			s.CheckGlobals = elys + "/x/"
+			s.GlobalsRead = globalsRead
+		}
 		if d.Unwind > 0 {
 			s.Unwind = d.Unwind
 		}
@@ -311,6 +336,14 @@ func (c *Config) makeSpecs(l *loaded, findings map[string]bool) ([]*symx.Harness
 		s.Summaries = map[string]*ssa.Function{}
 		for target, sub := range d.Summaries {
 			sf := l.hpkg.Func(sub)
+			if i := strings.Index(sub, "."); i > 0 {
+				// contract in another harness package: h_cNN.fn
+				for _, p := range l.prog.AllPackages() {
+					if strings.HasSuffix(p.Pkg.Path(), "/zzvrf/"+sub[:i]) {
+						sf = p.Func(sub[i+1:])
+					}
+				}
+			}
 			if sf == nil {
 				return nil, nil, fmt.Errorf("%s: summary function %s not found", d.Name, sub)
 			}
@@ -441,6 +474,7 @@ func runCheck(c *Config) int {
 			ftext[f.ID] = f.Text
 		}
 	}
+	collectSites(c, l)
 	specs, decls, err := c.makeSpecs(l, active)
 	if err != nil {
 		return fail(2, "INCONCLUSIVE "+err.Error())
@@ -466,6 +500,7 @@ func runCheck(c *Config) int {
 
 	// ---- product-mode comparison (C19) ----
 	var productViol []symx.Violation
+	var pst symx.ProductStats
 	productPairs := 0
 	byName := map[string]*symx.HarnessResult{}
 	for _, r := range results {
@@ -473,13 +508,17 @@ func runCheck(c *Config) int {
 	}
 	for _, r := range results {
 		if rev, ok := byName[r.Spec.Name+"#rev"]; ok {
-			e := symx.NewEngine(P, c.Solver)
-			pairs, viol := symx.Product(e.S, r, rev)
-			e.Close()
-			productPairs += pairs
+			st, viol := symx.Product(func() *symx.Solver { return symx.NewSolver(c.Solver) }, nw, r, rev)
+			pst.Pairs += st.Pairs
+			pst.Contradictory += st.Contradictory
+			pst.Identical += st.Identical
+			pst.Unsat += st.Unsat
+			pst.Sat += st.Sat
+			pst.Unknown += st.Unknown
 			productViol = append(productViol, viol...)
 		}
 	}
+	productPairs = pst.Pairs
 
 	// ---- native replay of witnesses and counter-examples ----
 	rp := &replayer{c: c, l: l}
@@ -531,7 +570,7 @@ func runCheck(c *Config) int {
 				}
 				continue
 			}
-			if native {
+			if native && !strings.HasPrefix(v.Label, "C19 restart") {
 				out, err := rp.run(strings.TrimSuffix(r.Spec.Name, "#rev"), v.Model)
 				if err != nil {
 					notes = append(notes, "replay failed: "+err.Error())
@@ -558,6 +597,46 @@ func runCheck(c *Config) int {
 		}
 	}
 	for _, v := range productViol {
+		// confirm by concrete re-execution of both runs with the model's inputs
+		ra, rb := byName[v.Harness], byName[v.Harness+"#rev"]
+		wa, oka := concreteWitness(P, c, ra.Spec, v.Model)
+		wb, okb := concreteWitness(P, c, rb.Spec, v.Model)
+		if oka && okb {
+			diff := ""
+			for k, x := range wa.Obs {
+				if y, ok := wb.Obs[k]; !ok || x != y {
+					diff = fmt.Sprintf("%s: %s vs %q", k, x, y)
+					break
+				}
+			}
+			if diff == "" && len(wa.Obs) != len(wb.Obs) {
+				diff = "different sets of state entries"
+			}
+			if diff == "" {
+				notes = append(notes, fmt.Sprintf("%s: product model does not differ under concrete re-execution (wall-clock dependence or inexact model)", v.Harness))
+				unconfirmed = append(unconfirmed, v)
+				continue
+			}
+			v.Detail += "; concrete re-execution of both runs differs at " + diff
+		}
+		// native: the compiled tree run repeatedly with the same inputs (Go randomises map iteration per run)
+		if len(decls[v.Harness].Summaries) == 0 && !c.NoReplay {
+			first := ""
+			for i := 0; i < 24; i++ {
+				out, err := rp.run(v.Harness, v.Model)
+				if err != nil {
+					break
+				}
+				o := obsLines(out)
+				if first == "" {
+					first = o
+				} else if o != first {
+					v.Detail += fmt.Sprintf("; reproduced natively: run %d of the compiled tree left different state than run 1 with the same inputs", i+1)
+					validated++
+					break
+				}
+			}
+		}
 		confirmed = append(confirmed, v)
 	}
 
@@ -570,6 +649,17 @@ func runCheck(c *Config) int {
 	coverReached := map[string]int{}
 	knownHit := map[string]int{}
 	var harnessRows []map[string]interface{}
+	// product pairs are obligations too: a pair is discharged when its path conditions contradict, its
+	// observation terms are identical, or the solver refutes "both reachable and some observation differs"
+	asserts += pst.Pairs
+	discharged += pst.Contradictory + pst.Identical + pst.Unsat
+	if pst.Unknown > 0 {
+		unknowns += pst.Unknown
+		problems = append(problems, fmt.Sprintf("inconclusive: %d product pair quer(ies) returned unknown/timeout", pst.Unknown))
+	}
+	if c.Prop == "C19" && pst.Pairs == 0 {
+		problems = append(problems, "vacuity: no product pair was compared")
+	}
 	for _, r := range results {
 		d := decls[r.Spec.Name]
 		paths += r.Paths
@@ -747,11 +837,14 @@ func runCheck(c *Config) int {
 			"cover_points":                  coverReached,
 			"harnesses":                     harnessRows,
 			"product_pairs":                 productPairs,
+			"product":                       map[string]int{"pairs": pst.Pairs, "contradictory_path_conditions": pst.Contradictory, "identical_observation_terms": pst.Identical, "unsat": pst.Unsat, "sat": pst.Sat, "unknown": pst.Unknown},
 			"known_findings_applied":        knownLines,
 			"problems":                      problems,
 			"notes":                         notes,
 			"source_tree_digest":            treeDigest(c, fnList, l),
 			"entry_points_enumerated":       c.generated,
+			"scenarios_wrapped":             len(c.scenarios),
+			"site_inventory":                siteInventory(c, l, fnList),
 			"explanation":                   "bounded symbolic execution of the real Go SSA of /repo; every assertion instance is an SMT query (path condition AND NOT assertion) decided by " + c.Solver + "; states = symbolic paths, transitions = symbolic branch decisions",
 		},
 		"assumptions": assumptionsFor(decls),
@@ -975,6 +1068,17 @@ func (r *replayer) run(harness string, model map[string]string) (string, error) 
 	return string(out), nil
 }
 
+func obsLines(out string) string {
+	var ls []string
+	for _, line := range strings.Split(out, "\n") {
+		if strings.HasPrefix(line, "OBS ") {
+			ls = append(ls, line)
+		}
+	}
+	sort.Strings(ls)
+	return strings.Join(ls, "\n")
+}
+
 func compareWitness(w symx.Witness, out string) (bool, string) {
 	if strings.Contains(out, "ENDPATH") {
 		return false, "native run rejected the model at an assumption: " + lastLines(out, 2)
@@ -1123,6 +1227,14 @@ func ndSources(c *Config, l *loaded) []ndSource {
 					out = append(out, ndSource{kind, f.String(), strings.TrimPrefix(l.prog.Fset.Position(in.Pos()).String(), c.Repo+"/")})
 				}
 				switch in := in.(type) {
+				case *ssa.Store:
+					if g := rootGlobal(in.Addr); g != nil && f.Name() != "init" && !strings.HasPrefix(f.Name(), "init#") {
+						add("write to package-level variable " + g.Name() + " (in-memory state)")
+					}
+				case *ssa.MapUpdate:
+					if g := rootGlobal(in.Map); g != nil && f.Name() != "init" && !strings.HasPrefix(f.Name(), "init#") {
+						add("write to package-level map " + g.Name() + " (in-memory state)")
+					}
 				case *ssa.Range:
 					if _, ok := in.X.Type().Underlying().(*types.Map); ok {
 						add("range over map")
@@ -1148,6 +1260,184 @@ func ndSources(c *Config, l *loaded) []ndSource {
 	}
 	sort.Slice(out, func(i, j int) bool { return out[i].Pos < out[j].Pos })
 	return out
+}
+
+// siteInventory (meta-checks): the static inventory of the constructs the property is about, each marked
+// with whether a scenario of this run executed its function.
+var siteSrc []ndSource
+
+// globalsRead: package-level variables of the Elys modules whose value is used by a non-init function for
+// anything but updating the same variable (a write-only counter cannot influence the state transition).
+var globalsRead map[string]bool
+
+func collectGlobalsRead(l *loaded) {
+	globalsRead = map[string]bool{}
+	for f := range ssautil.AllFunctions(l.prog) {
+		pk := f.Pkg
+		if pk == nil && f.Origin() != nil {
+			pk = f.Origin().Pkg
+		}
+		if pk == nil || !strings.HasPrefix(pk.Pkg.Path(), elys+"/x/") || f.Name() == "init" || strings.HasPrefix(f.Name(), "init#") {
+			continue
+		}
+		for _, b := range f.Blocks {
+			for _, in := range b.Instrs {
+				// any use of the global's address other than a direct store target / load-for-self-update counts as a read
+				var g *ssa.Global
+				var val ssa.Value
+				switch x := in.(type) {
+				case *ssa.UnOp:
+					if x.Op == token.MUL {
+						g, val = rootGlobal(x.X), x
+					}
+				case *ssa.Lookup:
+					g, val = rootGlobal(x.X), x
+				case *ssa.Range:
+					g, val = rootGlobal(x.X), x
+				case ssa.CallInstruction:
+					for _, a := range x.Common().Args {
+						if ga := rootGlobal(a); ga != nil && ga.Pkg != nil && strings.HasPrefix(ga.Pkg.Pkg.Path(), elys+"/x/") {
+							globalsRead[ga.Pkg.Pkg.Path()+"."+ga.Name()] = true // address escapes into a call
+						}
+					}
+				}
+				if g == nil || g.Pkg == nil || !strings.HasPrefix(g.Pkg.Pkg.Path(), elys+"/x/") {
+					continue
+				}
+				if usedBeyondSelfUpdate(val, g, 0) {
+					globalsRead[g.Pkg.Pkg.Path()+"."+g.Name()] = true
+				}
+			}
+		}
+	}
+}
+
+func usedBeyondSelfUpdate(v ssa.Value, g *ssa.Global, depth int) bool {
+	if depth > 6 || v.Referrers() == nil {
+		return true
+	}
+	for _, r := range *v.Referrers() {
+		switch x := r.(type) {
+		case *ssa.Store:
+			if x.Val == v && rootGlobal(x.Addr) == g {
+				continue
+			}
+			return true
+		case *ssa.MapUpdate:
+			if rootGlobal(x.Map) == g && x.Map != v {
+				continue
+			}
+			if x.Map == v {
+				continue // writing into the map itself is not a read
+			}
+			return true
+		case *ssa.BinOp:
+			if usedBeyondSelfUpdate(x, g, depth+1) {
+				return true
+			}
+		case *ssa.Convert:
+			if usedBeyondSelfUpdate(x, g, depth+1) {
+				return true
+			}
+		case *ssa.ChangeType:
+			if usedBeyondSelfUpdate(x, g, depth+1) {
+				return true
+			}
+		case *ssa.DebugRef:
+			continue
+		default:
+			return true
+		}
+	}
+	return false
+}
+
+// collectSites must run before symx.NewProgram (which patches reflect for the interpreter)
+func collectSites(c *Config, l *loaded) {
+	if c.Prop == "C19" {
+		collectGlobalsRead(l)
+	}
+	switch c.Prop {
+	case "C15":
+		siteSrc = supplySites(c, l)
+	case "C19":
+		siteSrc = ndSources(c, l)
+	}
+}
+
+func siteInventory(c *Config, l *loaded, fnList []string) interface{} {
+	src := siteSrc
+	if src == nil {
+		return nil
+	}
+	ran := map[string]bool{}
+	for _, f := range fnList {
+		ran[f] = true
+	}
+	var rows []map[string]interface{}
+	for _, s := range src {
+		rows = append(rows, map[string]interface{}{"kind": s.Kind, "function": s.Func, "pos": s.Pos, "function_executed_by_a_scenario": ran[s.Func]})
+	}
+	return rows
+}
+
+// supplySites enumerates every call of a MintCoins / BurnCoins method in the non-test Elys packages.
+func supplySites(c *Config, l *loaded) []ndSource {
+	var out []ndSource
+	for f := range ssautil.AllFunctions(l.prog) {
+		pk := f.Pkg
+		if pk == nil && f.Origin() != nil {
+			pk = f.Origin().Pkg
+		}
+		if pk == nil || !strings.HasPrefix(pk.Pkg.Path(), elys+"/x/") {
+			continue
+		}
+		file := l.prog.Fset.Position(f.Pos()).Filename
+		if strings.HasSuffix(file, ".pb.go") || strings.HasSuffix(file, "_test.go") || strings.Contains(file, "/mocks/") || strings.Contains(file, "/testutil/") || f.Synthetic != "" {
+			continue
+		}
+		for _, b := range f.Blocks {
+			for _, in := range b.Instrs {
+				ci, ok := in.(ssa.CallInstruction)
+				if !ok {
+					continue
+				}
+				name := ""
+				if m := ci.Common().Method; m != nil {
+					name = m.Name()
+				} else if cf := ci.Common().StaticCallee(); cf != nil {
+					name = cf.Name()
+				}
+				if name == "MintCoins" || name == "BurnCoins" {
+					out = append(out, ndSource{name, f.String(), strings.TrimPrefix(l.prog.Fset.Position(in.Pos()).String(), c.Repo+"/")})
+				}
+			}
+		}
+	}
+	sort.Slice(out, func(i, j int) bool { return out[i].Pos < out[j].Pos })
+	return out
+}
+
+// rootGlobal: the package-level variable an address / loaded value is rooted at, if any.
+func rootGlobal(v ssa.Value) *ssa.Global {
+	for i := 0; i < 8; i++ {
+		switch x := v.(type) {
+		case *ssa.Global:
+			return x
+		case *ssa.FieldAddr:
+			v = x.X
+		case *ssa.IndexAddr:
+			v = x.X
+		case *ssa.UnOp:
+			if x.Op != token.MUL {
+				return nil
+			}
+			v = x.X
+		default:
+			return nil
+		}
+	}
+	return nil
 }
 
 func listSources(c *Config) int {
